@@ -367,6 +367,31 @@ func checkDef(c defCase) *vlib.Failure {
 	if ok != (wantPos < 0) || pos != wantPos {
 		return vlib.Failf("allvalid", "AllValidQLetter(%v) = %v, %d; first invalid position is %d", c.Probe, ok, pos, wantPos)
 	}
+	if wantPos < 0 && len(ls) > 0 {
+		// the same storage asked again after the caller wrote an invalid letter into it, and once more
+		// after the letter was put back
+		bad, found := byte(0), false
+		for b := 255; b >= 0 && !found; b-- {
+			if !a.IsValid(alphabet.Letter(b)) {
+				bad, found = byte(b), true
+			}
+		}
+		if found {
+			at := len(ls) / 2
+			keep, keepQ := ls[at], qs[at]
+			ls[at], qs[at].L = alphabet.Letter(bad), alphabet.Letter(bad)
+			if ok, pos := a.AllValid(ls); ok || pos != at {
+				return vlib.Failf("allvalid", "AllValid on a slice found valid before, after %q was written at position %d = %v, %d (definition %q cased=%v)", bad, at, ok, pos, c.Letters, c.Cased)
+			}
+			if ok, pos := a.AllValidQLetter(qs); ok || pos != at {
+				return vlib.Failf("allvalid", "AllValidQLetter on a slice found valid before, after %q was written at position %d = %v, %d", bad, at, ok, pos)
+			}
+			ls[at], qs[at] = keep, keepQ
+			if ok, pos := a.AllValid(ls); !ok || pos != -1 {
+				return vlib.Failf("allvalid", "AllValid after the valid letter was put back = %v, %d", ok, pos)
+			}
+		}
+	}
 	if c.LongN > 0 {
 		inDef := func(p byte) bool {
 			for j := 0; j < len(c.Letters); j++ {
@@ -441,7 +466,7 @@ type badDef struct {
 	Cased   bool   `json:"cased"`
 }
 
-var badKinds = []string{"non-ascii-alphabet", "non-ascii-pairing", "length-mismatch", "chain", "one-way", "two-to-one"}
+var badKinds = []string{"non-ascii-alphabet", "non-ascii-pairing", "length-mismatch", "chain", "one-way", "two-to-one", "cycle"}
 
 func genBad(t *rapid.T) badDef {
 	n := rapid.IntRange(2, 12).Draw(t, "n")
@@ -515,6 +540,24 @@ func checkBad(c badDef) *vlib.Failure {
 		s, co := c.Letters[:1], c.Letters[1:2]
 		if _, err := alphabet.NewPairing(s, co); err == nil {
 			return vlib.Failf("accepts-non-bijection", "NewPairing(%q, %q) accepted a one-way pairing", s, co)
+		}
+	case "cycle": // a->b, b->c, c->a (and a longer one): a bijection on its letters that is not an involution
+		if n < 3 {
+			return nil
+		}
+		for k := 3; k <= n && k <= 5; k++ {
+			s := c.Letters[:k]
+			co := s[1:] + s[:1]
+			if _, err := alphabet.NewPairing(s, co); err == nil {
+				return vlib.Failf("accepts-non-bijection", "NewPairing(%q, %q) accepted a cycle of %d letters (complementing twice does not give the letter back)", s, co, k)
+			}
+			if k < n {
+				// the same cycle next to a proper pair
+				s2, co2 := s+c.Letters[k:k+1], co+c.Letters[k:k+1]
+				if _, err := alphabet.NewPairing(s2, co2); err == nil {
+					return vlib.Failf("accepts-non-bijection", "NewPairing(%q, %q) accepted a cycle of %d letters beside a self-paired letter", s2, co2, k)
+				}
+			}
 		}
 	case "two-to-one": // a->c, b->c, c->a
 		if n < 3 {
